@@ -367,9 +367,12 @@ type Env struct {
 	TDB    *triedb.Database
 	Snaps  *snapshot.Tree
 	DB     state.Database
+	MDB    *state.MPTDatabase
 
-	persists int
-	diskRoot common.Hash // root of the path database's disk layer as far as this harness moved it
+	CachedReader bool // open states through the cache-sharing readers (C14 matrix)
+	opens        int
+	persists     int
+	diskRoot     common.Hash // root of the path database's disk layer as far as this harness moved it
 }
 
 // NewEnv creates an empty in-memory environment.
@@ -396,6 +399,7 @@ func (e *Env) open(root common.Hash) {
 		e.Snaps, _ = snapshot.New(snapshot.Config{CacheSize: 1, AsyncBuild: false}, e.Disk, e.TDB, root)
 	}
 	mdb := state.NewMPTDatabase(e.TDB, nil)
+	e.MDB = mdb
 	if e.Snaps != nil {
 		e.DB = mdb.WithSnapshot(e.Snaps)
 	} else {
@@ -403,8 +407,23 @@ func (e *Env) open(root common.Hash) {
 	}
 }
 
-// Open opens a StateDB at root.
-func (e *Env) Open(root common.Hash) (*state.StateDB, error) { return state.New(root, e.DB) }
+// Open opens a StateDB at root.  With CachedReader the state reads through one of the two
+// readers with a shared account/storage cache that block processing uses (prefetcher and
+// processor share the cache), otherwise through the plain multi-reader of state.New.
+func (e *Env) Open(root common.Hash) (*state.StateDB, error) {
+	if e.CachedReader {
+		ra, rb, err := e.MDB.ReadersWithCacheStats(root)
+		if err != nil {
+			return nil, err
+		}
+		e.opens++
+		if e.opens%2 == 0 {
+			ra = rb
+		}
+		return state.NewWithReader(root, e.DB, ra)
+	}
+	return state.New(root, e.DB)
+}
 
 // Close releases the trie database.
 func (e *Env) Close() {
@@ -545,6 +564,11 @@ func (m *Machine) Apply(act Act) error {
 	case "BeginTx":
 		s.SetTxContext(TxHash(m.Blk, m.Tx), m.Tx, uint32(m.Tx+1))
 		s.Prepare(m.R, addr, addr, nil, nil, nil)
+		m.InTx = true
+	case "BeginTxL":
+		dst := m.U.Addr(act.I)
+		s.SetTxContext(TxHash(m.Blk, m.Tx), m.Tx, uint32(m.Tx+1))
+		s.Prepare(m.R, addr, addr, &dst, nil, types.AccessList{{Address: dst, StorageKeys: []common.Hash{slot}}})
 		m.InTx = true
 	case "AddBalance":
 		s.AddBalance(addr, amt, tracing.BalanceChangeTransfer)
